@@ -25,19 +25,19 @@ PROPS = {
     "C02": (["colslice", "rowsel", "indices", "derived", "dispatch", "lemmas"], "c02"),
     "C03": (["colslice", "rowsel", "assign", "indices", "derived", "dispatch", "broadcast", "lemmas"], "c03"),
     "C04": (["ufunc", "broadcast", "lemmas"], "c04"),
-    "C05": (["reduce", "lemmas"], "c05"),
+    "C05": (["reduce", "structural", "broadcast", "lemmas"], "c05"),
     "C06": (["colslice", "rowsel", "indices", "derived", "dispatch", "frames", "lemmas"], "c06"),
-    "C07": (["scans", "lemmas"], "c07"),
+    "C07": (["scans", "broadcast", "lemmas"], "c07"),
     "C08": (["structural", "geometry", "derived", "broadcast", "lemmas"], "c08"),
     "C09": (["columns", "lemmas"], "c09"),
     "C10": (["frames", "assign", "ufunc", "derived"], "c10"),
-    "C11": (["hashtable", "lemmas"], "c11"),
+    "C11": (["hashtable", "structural", "lemmas"], "c11"),
     "C12": (["hashtable", "geometry", "indices", "lemmas"], "c12"),
     "C13": (["bitarray"], "c13"),
     "C14": (["rle", "lemmas"], "c14"),
-    "C15": (["rle", "lemmas"], "c15"),
+    "C15": (["rle", "structural", "lemmas"], "c15"),
     "C16": (["rle", "lemmas"], "c16"),
-    "C17": (["rle2d"], "c17"),
+    "C17": (["rle2d", "structural", "lemmas"], "c17"),
     "C18": (["dataclass"], "c18"),
     "C19": (["colslice", "rowsel", "indices", "derived", "geometry", "reduce", "scans", "columns", "structural", "lemmas"], "c19"),
 }
